@@ -98,7 +98,7 @@ theorem C18_human_repr_shape (e : Env) (sc : Str) (user pw : Option Str) (h H D 
       ∃ usr pw' rp qparts rf,
         HumanPieces e user pw (47 :: normTail p) kvs f usr pw' (47 :: rp) qparts rf ∧
         hr = composeUrl sc (authText usr pw' D (effPort sc port)) (47 :: rp) (joinC 38 qparts) rf :=
-  ⟨build_full e sc user pw h H port p kvs f hrt.hne hrt.okH.1 hrt.build hport hp hn,
+  ⟨build_full e sc sc (vs.lowerAny_eq e) user pw h H port p kvs f hrt.hne hrt.okH.1 hrt.build hport hp hn,
    fun hr hh => humanRepr_shape e sc user pw H D (effPort sc port) (normTail p) kvs f vs.ne hrt.okH
      hrt.shown hrt.disp.ok.1 (effPort_range hport) hu hune hw (good_normalizePath hp hn).1
      (good_normalizePath hp hn).2 hg hf hfn hr hh⟩
@@ -344,7 +344,7 @@ theorem C18_roundtrip_full_total (e : Env) (sc : Str) (user pw : Option Str) (h 
   obtain ⟨rf, h5⟩ := C18_human_quote_total e.o f (humanUnsafeOf "fragment") hfn (fun c _ => ho c)
   refine ⟨builtFull e sc user pw H (effPort sc port) (47 :: normTail p) kvs f,
     unsplitResult sc (authText usr pw' D (effPort sc port)) rp (joinC 38 qparts) rf,
-    build_full e sc user pw h H port p kvs f hrt.hne hrt.okH.1 hrt.build hport hp hn, ?_⟩
+    build_full e sc sc (vs.lowerAny_eq e) user pw h H port p kvs f hrt.hne hrt.okH.1 hrt.build hport hp hn, ?_⟩
   rw [humanRepr_full e sc user pw H D (effPort sc port) (normTail p) kvs f hrt.okH hrt.shown hrt.disp.ok.1
     (effPort_range hport) hu hune hw (good_normalizePath hp hn).1 (good_normalizePath hp hn).2 hg hf hfn,
     h1, h2, h3, h4, h5]
